@@ -2,11 +2,12 @@ import CMacVerif.Model.Verner
 import CMacVerif.Model.Recomb
 import CMacVerif.Model.Locate
 import CMacVerif.Model.Planck
+import CMacVerif.Model.Notation
 import CMacVerif.Inst.Float
 import CMacVerif.Util.Bits
 /-! Line-protocol driver for C18: the `Float` instantiation of the models (core Lean only).
 One answer line per op line; ` #tag` = branch taken (stripped before comparison). -/
-open CMacVerif CMacVerif.Util CMacVerif.Verner CMacVerif.Gen.Verner CMacVerif.Locate CMacVerif.Planck
+open CMacVerif CMacVerif.Util CMacVerif.Verner CMacVerif.Gen.Verner CMacVerif.Locate CMacVerif.Planck CMacVerif.Notation
 
 structure St where
   tabs : Array (String × Array Float) := #[]
@@ -106,6 +107,21 @@ def step (s : St) : List String → St × String
     let lcdf := Array.ofFn (n := N) fun i => pLogCdfFast cum N i.val
     let lf := Array.ofFn (n := N) fun i => pLogFreq (α := Float) Nat.toFloat N i.val
     (((s.setTab "planck.cdf" cdf).setTab "planck.logcdf" lcdf).setTab "planck.logfreq" lf, "mk planck")
+  | ["pmono", v, unit, _text, _expect] =>
+    -- MonochromaticPhotonSourceSpectrum(role, params) with `frequency: <text>`: the frequency the
+    -- parameter denotes (model of to_SI<QUANTITY_FREQUENCY>), returned by every sample
+    match FUnit.ofString unit with
+    | some u => (s, s!"pmono {showF (monoSample (frequencyOf u (fl v)) 0.5)} #pmono-{repr u.kind}")
+    | none => (s, "pmono unknown-unit")
+  | ["pplanck", t, _text] =>
+    -- PlanckPhotonSourceSpectrum(role, params) with `temperature: <text>`: tables of the model
+    -- constructor at that temperature, one table entry and one sample
+    let N := planckNumFreq
+    let cum := pCumArr Nat.toFloat planck boltzmann (fl t) N (N - 1)
+    let cdf := Array.ofFn (n := N) fun i => pCdfFast cum N i.val
+    let lcdf := Array.ofFn (n := N) fun i => pLogCdfFast cum N i.val
+    let lf := Array.ofFn (n := N) fun i => pLogFreq (α := Float) Nat.toFloat N i.val
+    (s, s!"pplanck {showF (fn cdf (N / 2))} {showF (planckSample 0.5 (fn cdf) (fn lcdf) (fn lf) N)} #pplanck")
   | ["gettab", name] =>
     let a := s.tab name
     (s, s!"gettab {a.size} {showFs a.toList}")
